@@ -1,8 +1,12 @@
 import Gaftools.Props.C02
 import Gaftools.Props.TieA
+import Gaftools.Props.Glue
 #print axioms Gaftools.TieA.mergeNodes_gen_eq_model
 #print axioms Gaftools.C02.roundtrip_USU
 #print axioms Gaftools.C02.roundtrip_SUS
 #print axioms Gaftools.C02.reverseCigar_involutive
 #print axioms Gaftools.C02.emit_untouched
 #print axioms Gaftools.C02.convertFile_length
+#print axioms Gaftools.Glue.parse_render_unstable
+#print axioms Gaftools.Glue.parse_render_ivs
+#print axioms Gaftools.Glue.parse_render_bare
